@@ -42,7 +42,8 @@ def find(qual):
                     cands.append(x)
         if not cands:
             raise NotFound(f"{qual}: no definition named {p}")
-        node = cands[-1] if isinstance(node, ast.Module) and len(cands) > 1 and not isinstance(cands[0], ast.ClassDef) else cands[0]
+        # several definitions of one name (typing overloads, redefinitions): the last one is the one that runs
+        node = cands[-1] if len(cands) > 1 and not isinstance(cands[0], ast.ClassDef) else cands[0]
     return node
 
 
